@@ -427,8 +427,8 @@ theorem handlePeerBlock_cache_rule : handlePeerBlockCacheRule =
 
 open Canopy.Gen.Exec in
 /-- inside the BFT the cached result is written by the proposal validation and cleared by the round
-interrupt, and by nothing else (in particular not by `NewHeight`/`NewRound`: a stale result of an
-earlier height can stay cached; `commit` rejects it by height) -/
+interrupt, and by nothing else (in particular not by `NewHeight`/`NewRound`); every other drop of
+the cached result happens in `Controller.resetFSM` -/
 theorem cached_result_writers : bftBlockResultWrites =
     ["StartProposeVotePhase: b.BlockResult, err = b.ValidateProposal(msg.RcBuildHeight, msg.Qc, byzantineEvidence)",
      "RoundInterrupt: b.BlockResult = nil"] := by decide
@@ -462,5 +462,23 @@ theorem checkMempool_runs_on_fresh_copy : checkMempoolCallers =
      "finishSyncing: c.Mempool.FSM.Discard, c.FSM.Copy -> CheckMempool",
      "Start:  -> CheckMempool",
      "CheckMempool: c.Mempool.FSM.Reset -> CheckMempool"] := by decide
+
+open Canopy.Gen.Exec in
+/-- scope of the one cache that is NOT write-through: `cache.liveValidators` (a validator list filled
+by the first `getCurrentValidators` and cleared only by `ResetCaches`; validator writes do not update
+it). On a state machine's own state it is reached only through `LotteryWinner` and `PollsToResults`;
+on a live (controller / mempool) state machine `LotteryWinner` is called only by
+`CalculateRewardRecipients`, only on nested chains (`!isOwnRoot`), i.e. after `ApplyBlock`, in a
+lifetime that began with a reset or a fresh copy (`checkMempool_runs_on_fresh_copy`,
+`validateProposal_begins_with_reset`) — on the proposer path and on the replica path alike, so both
+read the post-block validator list. Own-root chains take the lottery from a historical snapshot. -/
+theorem liveValidators_cache_scope :
+    liveValidatorsReaders = ["LotteryWinner -> GetCommitteeMembers", "LotteryWinner -> GetDelegates",
+      "GetCommitteeMembers -> getValidatorSet", "GetDelegates -> getValidatorSet",
+      "PollsToResults -> GetCommitteeMembers", "getValidatorSet -> getCurrentValidators"] ∧
+    liveLotteryCalls = ["if !isOwnRoot: fsm.LotteryWinner(c.Config.ChainId, true)",
+      "if !isOwnRoot: fsm.LotteryWinner(c.Config.ChainId)",
+      "anywhere: fsm.LotteryWinner(c.Config.ChainId, true)", "anywhere: fsm.LotteryWinner(c.Config.ChainId)"] := by
+  decide
 
 end Canopy.C03
